@@ -67,6 +67,12 @@ UNDER_TEST = [
     (C("ROLEQ", "MARG", frame="NED", gain="high"), {"magnetic_ref": 60.0, "__repeat_only__": True}, False, (C("ROLEQ", "MARG", frame="ENU", gain="low"), {"magnetic_ref": 55.0}, True)),
     (C("EKF", "MARG", frame="NED", gain="high"), {"magnetic_ref": 60.0}, False),
     (C("Mahony", "MARG", gain="high"), {}, False), (C("AQUA", "MARG", mode="fixed", gain="high"), {}, False),
+    # the complementary and the fast Kalman filter, with and without an initial attitude (without: the first row comes from the
+    # accelerometer/magnetometer alone, through the N-row helper for the batch and the one-sample helper for the stream)
+    (C("Complementary", "IMU"), {}, True), (C("Complementary", "MARG"), {}, True),
+    (C("Complementary", "IMU", gain="high"), {}, False, (C("Complementary", "MARG", gain="low"), {}, False)),
+    (C("Complementary", "MARG", gain="high"), {}, False, (C("Complementary", "IMU", gain="low"), {}, False)),
+    (C("FKF", "MARG"), {}, True), (C("FKF", "MARG", gain="high"), {}, False),
     # the per-sensor noise options (handled by name inside the class)
     (C("EKF", "MARG", frame="NED", gain="low", rate="3Hz"), {"magnetic_ref": 60.0, "var_acc": 0.01, "var_gyr": 0.002, "var_mag": 0.6}, True),
     (C("EKF", "IMU", frame="ENU", gain="low", rate="3Hz"), {"var_acc": 0.02}, True),
@@ -214,6 +220,8 @@ def replay_behaviours(args):
                         continue
                     else:
                         raise KeyError(act)
+                except FL.BatchOnly:
+                    break
                 except Exception as e:  # noqa
                     which = conc(args_[1])[0] if act in ("Create", "Batch") else inst[args_[0]]["cfg"]
                     if name_of(which) == cname:
